@@ -2,7 +2,11 @@
 import wallet_checks
 from wallet_common import *
 
-MANIFEST_ENTRY = None   # set below when the check is registered
+MANIFEST_ENTRY = dict(
+    cat="model_checking", ref='DESIGN.md 4 C17', engine="wallet-tla",
+    text="TLC explores sends with a TTL of +1 block at every protocol step with blocks ticking in between, and checks ExpiredRefused / ExpiredReleased on the model; on the real code TLC checks, from the observed last-confirmed height, that a slate whose cutoff has been observed is refused without state change at receive/finalize, that a refresh at tip >= cutoff cancels the wallet's own unconfirmed entry and unlocks its inputs, and that nothing is refused or cancelled for expiry when the cutoff is 0 or ahead of the tip.",
+    technique="TLC model checking of spec/MCWallet.tla + TLC-generated behaviours replayed on the real code + TLC trace validation (spec/TraceWallet.tla)",
+    note=WALLET_NOTE)
 
 PARAMS = dict(quick_cfgs=['MC_C17_quick.cfg'], thorough_cfgs=['MC_C17.cfg'], quick_n=60, thorough_n=500,
               setup=STD_SETUP, assumptions=WALLET_ASSUME, extra_behaviours=[])
